@@ -2439,11 +2439,20 @@ static int yaml_import_node(vnaproperty_yaml_t *vymlp,
 		if ((subtree = vnaproperty_set_subtree(rootptr, "%s",
 			    (const char *)key->data.scalar.value)) == NULL) {
 		    if (errno == EINVAL) {
+			const char *text = (const char *)key->data.scalar.value;
+			int length = 0;
+
+			/* the message is one line: stop at a control character */
+			while ((unsigned char)text[length] >= 0x20) {
+			    ++length;
+			}
 			_vnaproperty_yaml_error(vymlp, VNAERR_SYNTAX,
-				"%s (line %ld) error: invalid property key: %s",
+				"%s (line %ld) error: invalid property key: "
+				"%.*s%s",
 				vymlp->vyml_filename,
 				key->start_mark.line + 1,
-				(const char *)key->data.scalar.value);
+				length, text,
+				text[length] != '\000' ? "..." : "");
 			goto out;
 		    }
 		    _vnaproperty_yaml_error(vymlp, VNAERR_SYSTEM,
